@@ -268,7 +268,10 @@ def run(ctx, ck):
         bad = None
         n_entered = 0
         strip = lambda t_: _re.sub(r'^enumerate\((.*)\)$', r'\1', t_)
+        from ..lines import opaque_text
         for p_ in wpaths(q):
+            if opaque_text(p_):
+                raise AnalysisError('%s: the report text comes from %s, which is not followed' % (q, opaque_text(p_)))
             entered = [t_ for k_, t_ in p_.conds if k_ == 'loop' and _re.search(iter_re + '$', strip(t_))]
             skipped = [t_ for k_, t_ in p_.conds if k_ == 'loop-skipped' and _re.search(iter_re + '$', strip(t_))]
             comp = [it_ for e_, st_, it_ in line_exprs(p_, with_iter=True)
